@@ -1,6 +1,7 @@
 package main
 
 import (
+	"sync"
 	"encoding/json"
 	"fmt"
 	"os"
@@ -128,6 +129,7 @@ func cmdCheck(verifDir, repoDir string, args []string) int {
 		fmt.Println("ENGINE-ERROR cannot load /repo:", err)
 		return 2
 	}
+	p.tier = tier
 	tLoad := time.Since(t0)
 	findings := loadFindings(verifDir)
 	targets := p.targetsFor(prop)
@@ -142,15 +144,16 @@ func cmdCheck(verifDir, repoDir string, args []string) int {
 		if only != "" && !strings.Contains(t.ref, only) {
 			continue
 		}
-		fr := p.verifyFunc(t, findings)
-		frs = append(frs, fr)
-		if fr.Err != "" {
-			engineErrs = append(engineErrs, fr.Name+": "+fr.Err)
-			continue
-		}
-		for _, o := range fr.Ctx.obls {
-			if hasProp(o, prop) {
-				all = append(all, o)
+		for _, fr := range p.verifyFuncAll(t, findings) {
+			frs = append(frs, fr)
+			if fr.Err != "" {
+				engineErrs = append(engineErrs, fr.Name+": "+fr.Err)
+				continue
+			}
+			for _, o := range fr.Ctx.obls {
+				if hasProp(o, prop) {
+					all = append(all, o)
+				}
 			}
 		}
 	}
@@ -246,7 +249,60 @@ func cmdCheck(verifDir, repoDir string, args []string) int {
 	for _, fr := range frs {
 		frByName[fr.Name] = fr
 	}
-	for i, o := range all {
+	// failed obligations that recorded findings account for are re-checked outside the
+	// recorded inputs, all of them concurrently
+	type recheck struct {
+		o2       *Obl
+		matching []int
+	}
+	rechecks := map[*Obl]*recheck{}
+	{
+		var wg sync.WaitGroup
+		sem := make(chan struct{}, cfg.workers)
+		for i, o := range all {
+			if !strings.HasPrefix(o.Verdict, "failed") {
+				continue
+			}
+			bn := baseName(o.Name)
+			fr := frByName[o.Func]
+			var matching []int
+			for k, f := range findings {
+				if f.Property == prop && f.Obligation == bn {
+					matching = append(matching, k)
+				}
+			}
+			if len(matching) == 0 || fr == nil {
+				continue
+			}
+			var extra []string
+			okAll := true
+			for _, k := range matching {
+				term, ok := fr.kf[k]
+				if !ok {
+					okAll = false
+					break
+				}
+				extra = append(extra, fmt.Sprintf("(assert (not %s))", term))
+			}
+			if !okAll {
+				continue
+			}
+			o2 := *o
+			o2.Verdict, o2.Detail = "", ""
+			o2.shortFirst = false
+			rc := &recheck{o2: &o2, matching: matching}
+			rechecks[o] = rc
+			wg.Add(1)
+			go func(i int, extra []string) {
+				defer wg.Done()
+				sem <- struct{}{}
+				defer func() { <-sem }()
+				discharge(rc.o2, cfg, 100000+i, extra...)
+			}(i, extra)
+		}
+		wg.Wait()
+	}
+	for _, o := range all {
 		switch o.Verdict {
 		case "discharged", "ok":
 			continue
@@ -261,39 +317,14 @@ func cmdCheck(verifDir, repoDir string, args []string) int {
 			continue
 		}
 		// failed: is it accounted for by known findings?
-		bn := baseName(o.Name)
-		fr := frByName[o.Func]
-		var matching []int
-		for k, f := range findings {
-			if f.Property == prop && f.Obligation == bn {
-				matching = append(matching, k)
+		if rc := rechecks[o]; rc != nil && rc.o2.Verdict == "discharged" {
+			o.Verdict = "known"
+			for _, k := range rc.matching {
+				rep.known[k] = true
 			}
-		}
-		if len(matching) > 0 && fr != nil {
-			var extra []string
-			okAll := true
-			for _, k := range matching {
-				term, ok := fr.kf[k]
-				if !ok {
-					okAll = false
-					break
-				}
-				extra = append(extra, fmt.Sprintf("(assert (not %s))", term))
-			}
-			if okAll {
-				o2 := *o
-				o2.Verdict, o2.Detail = "", ""
-				discharge(&o2, cfg, 100000+i, extra...)
-				if o2.Verdict == "discharged" {
-					o.Verdict = "known"
-					for _, k := range matching {
-						rep.known[k] = true
-					}
-					o.Secs += o2.Secs
-					o.Backend = o2.Backend
-					continue
-				}
-			}
+			o.Secs += rc.o2.Secs
+			o.Backend = rc.o2.Backend
+			continue
 		}
 		rep.failed = append(rep.failed, o)
 	}
@@ -337,7 +368,7 @@ func cmdSweep(verifDir, repoDir string, args []string) int {
 	for _, k := range keys {
 		i := strings.Index(k, "::")
 		t := target{k[:i], k[i+2:]}
-		fr := p.verifyFunc(t, nil)
+		fr := p.verifyFunc(t, nil, -1)
 		if fr.Err != "" {
 			fmt.Printf("%-70s ENGINE-ERROR %s\n", fr.Name, fr.Err)
 			continue
